@@ -315,16 +315,29 @@ func raceViolation(sc *Scenario, lines []string) (*Violation, bool) {
 	var sigs []string
 	for _, st := range stacks[:2] {
 		fn := ""
+		artefact := false
 		for _, fr := range st {
-			if strings.HasPrefix(fr, "runtime.") || strings.HasPrefix(fr, "reflect.") || strings.Contains(fr, "/zzverif/") ||
-				strings.HasPrefix(fr, "internal/") || strings.HasPrefix(fr, "sync.") || strings.HasPrefix(fr, "sync/atomic.") {
-				continue
+			if strings.Contains(fr, "/zzverif/") {
+				if strings.Contains(fr, "simrt.MapKeys") {
+					continue // acts on golib's map on behalf of a golib range statement
+				}
+				// simulator-owned memory touched through a runtime helper (copy, append, map
+				// access) that records accesses even in go:norace code: not golib's race
+				artefact = true
+				break
 			}
-			fn = fr
-			break
+			if strings.HasPrefix(fr, "github.com/whatap/golib/") {
+				fn = fr
+				break
+			}
+			if strings.HasPrefix(fr, "main.") || strings.HasPrefix(fr, "verifsim") {
+				artefact = true // harness code: artefact of the cooperative scheduler
+				break
+			}
+			// runtime, standard library, third-party: attributed to the golib caller below
 		}
-		if !strings.HasPrefix(fn, "github.com/whatap/golib/") {
-			return nil, true // top user frame is harness code: artefact of the cooperative scheduler
+		if artefact || fn == "" {
+			return nil, true
 		}
 		entry := fn
 		for _, fr := range st {
